@@ -1229,7 +1229,9 @@ struct Engine {
     oi.exempt = oi.operands;
     const uintmax_t sa = a.model.size(), sq = q.model.size();
     const bool possible = sa <= I2::limit() && sq <= I::limit();
-    if (!possible && (I::kUnchecked || I2::kUnchecked)) return;  // with the unchecked policy an exchange beyond N is outside the contract
+    // exceeding the N of a vector with the unchecked policy is outside the contract; exceeding the N of one with the throwing policy must throw,
+    // whatever the policy of the other operand
+    if ((sa > I2::limit() && I2::kUnchecked) || (sq > I::limit() && I::kUnchecked)) return;
     set_op(dir ? "swap2(P,Q)" : "swap2(Q,P)", st(a) + "|" + state_class<Vec2>(q.prev), possible ? (sa == sq ? "eq" : sa < sq ? "lt" : "gt") : "impossible",
            fmt("P%d(size %ju) <-> Q%d(size %ju)", ai, sa, qi, sq));
     // buffer exchange expected (C07): both heap-backed, same allocator type, each capacity representable in the other's size_type
